@@ -126,6 +126,7 @@ def _verdict(res, u, sub, verdict, model, xs, replay):
         res.unconfirmed.append({"key": key, "what": "model does not reproduce (diff %.3g)" % mag})
 
 
+@symnp.outside_session
 def replay_c_vs_py(case, x, q, compact):
     shape = (case.n_p if compact else case.n_s, case.n_s, 3, 3)
     fc = np.array(x, dtype="double").reshape(shape)
@@ -136,6 +137,7 @@ def replay_c_vs_py(case, x, q, compact):
     return d > TOL, d
 
 
+@symnp.outside_session
 def replay_fourier(case, model_, x, q, compact):
     vals = dict(zip([str(v) for v in model_.vars], x))
     # numeric fold / fourier with the same code paths, symbols replaced by numbers
